@@ -8,6 +8,7 @@ import (
 	"os"
 	"path/filepath"
 	"reflect"
+	"strings"
 	"time"
 
 	hg "github.com/mosaicnetworks/babble/src/hashgraph"
@@ -371,9 +372,15 @@ func init() {
 					cs = append(cs, CaseSpec{Kind: "events", P: map[string]int64{"n": int64(2 + i%4), "events": 220, "cache": int64(120 + (i*7)%60)}})
 				}
 			}
+			for i := 0; i < count/4; i++ {
+				cs = append(cs, CaseSpec{Kind: "peersets", P: map[string]int64{"n": int64(1 + i%7)}})
+			}
 			return cs
 		},
 		Run: func(cs CaseSpec) *CaseResult {
+			if cs.Kind == "peersets" {
+				return runC15PeerSets(cs)
+			}
 			if cs.Kind == "frames" {
 				return runC15Frames(cs)
 			}
@@ -392,4 +399,118 @@ func cloneEvent(ev *hg.Event) *hg.Event {
 	c := new(hg.Event)
 	json.Unmarshal(b, c)
 	return c
+}
+
+// runC15PeerSets: validator sets written to a real Badger store and read back
+// from the database (also after close and reopen) must be the same value: same
+// hash, same peers field by field, and a frame built from the reloaded peers
+// must hash like one built from the originals. Keys come in every spelling the
+// code base accepts (0X/0x prefix, upper, lower and mixed case hex digits):
+// the spelling is part of what gets hashed.
+func runC15PeerSets(cs CaseSpec) *CaseResult {
+	res := newResult(cs)
+	rng := cs.rng("c15ps")
+	dir := dagWorkDir(cs)
+	defer os.RemoveAll(dir)
+	spell := func(hexKey string, mode int) string {
+		body := hexKey[2:]
+		switch mode {
+		case 1:
+			return "0x" + strings.ToLower(body)
+		case 2:
+			return "0X" + strings.ToLower(body)
+		case 3:
+			b := []byte(body)
+			for i := range b {
+				if rng.Intn(2) == 0 {
+					b[i] = strings.ToLower(string(b[i]))[0]
+				}
+			}
+			return "0x" + string(b)
+		}
+		return hexKey
+	}
+	sets := map[int]*peers.PeerSet{}
+	n := int(cs.I("n", 4))
+	for si, round := range []int{0, 5, 17, 40} {
+		ps := []*peers.Peer{}
+		for i := 0; i < n+si; i++ {
+			k := detKey(cs.Seed, "c15ps", cs.Index*100+i)
+			ps = append(ps, peers.NewPeer(spell(pubHex(k), (i+si)%4), fmt.Sprintf("addr-%d:%d", i, 1000+rng.Intn(9000)), []string{"", "m", "näme with spaces", "\u0000x"}[rng.Intn(4)]))
+		}
+		sets[round] = peers.NewPeerSet(ps)
+	}
+	open := func() (*hg.BadgerStore, error) { return hg.NewBadgerStore(100, dir, false, nil) }
+	st, err := open()
+	if err != nil {
+		res.inconclusive(err.Error())
+		return res
+	}
+	for round, ps := range sets {
+		if err := st.SetPeerSet(round, ps); err != nil {
+			res.inconclusive(fmt.Sprintf("SetPeerSet(%d): %v", round, err))
+			st.Close()
+			return res
+		}
+	}
+	check := func(when string) bool {
+		for round, want := range sets {
+			got, err := st.VerifDBGetPeerSet(round)
+			res.Evaluations++
+			res.count("peer_sets_read_back_from_the_database", 1)
+			if err != nil {
+				res.violate("C15", "C15:peer-set-unreadable-from-database", fmt.Sprintf("%s: the validator set of round %d cannot be read back: %v", when, round, err), nil)
+				return false
+			}
+			hw, _ := want.Hash()
+			hgot, _ := got.Hash()
+			diff := ""
+			if !bytes.Equal(hw, hgot) {
+				diff = "hash differs"
+			}
+			if len(got.Peers) != len(want.Peers) {
+				diff = fmt.Sprintf("%d peers instead of %d", len(got.Peers), len(want.Peers))
+			} else {
+				for i := range want.Peers {
+					a, b := want.Peers[i], got.Peers[i]
+					if a.PubKeyHex != b.PubKeyHex || a.NetAddr != b.NetAddr || a.Moniker != b.Moniker {
+						diff = fmt.Sprintf("peer %d is {%s %q %q} instead of {%s %q %q}", i, trunc(b.PubKeyHex, 14), b.NetAddr, b.Moniker, trunc(a.PubKeyHex, 14), a.NetAddr, a.Moniker)
+						break
+					}
+				}
+			}
+			if diff == "" {
+				// a frame built from the reloaded peers hashes like one built from the originals
+				fa := &hg.Frame{Round: round, Peers: want.Peers, Roots: map[string]*hg.Root{}, Events: []*hg.FrameEvent{}, PeerSets: map[int][]*peers.Peer{round: want.Peers}}
+				fb := &hg.Frame{Round: round, Peers: got.Peers, Roots: map[string]*hg.Root{}, Events: []*hg.FrameEvent{}, PeerSets: map[int][]*peers.Peer{round: got.Peers}}
+				ha, _ := fa.Hash()
+				hb, _ := fb.Hash()
+				if !bytes.Equal(ha, hb) {
+					diff = "a frame built from the reloaded peers has another hash"
+				}
+			}
+			if diff != "" {
+				res.violate("C15", "C15:peer-set-changes-through-database", fmt.Sprintf("%s: the validator set of round %d read back from the database is not the one written: %s", when, round, diff), map[string]interface{}{"round": round})
+				return false
+			}
+		}
+		return true
+	}
+	if !check("same store instance") {
+		st.Close()
+		return res
+	}
+	st.Close()
+	st, err = open()
+	if err != nil {
+		res.inconclusive("reopen: " + err.Error())
+		return res
+	}
+	ok := check("after close and reopen")
+	st.Close()
+	if ok {
+		res.digest("c15ps", cs.Seed, cs.Index, n)
+	}
+	res.Sample = map[string]interface{}{"kind": "validator sets through the database", "sets": len(sets), "spellings": "0X upper / 0x lower / 0X lower / mixed"}
+	return res
 }
